@@ -545,3 +545,11 @@ package bt
 //@   requires (spec.inputs_nonnil tx) (spec.out_scripts_nonnil tx) (spec.outputs_nonnil tx)
 //@   ensures[C02.sighash_errors] (=> (= (mod (div sigHashFlag 64) 2) 1) (= (= err nil) (and (< inputNumber (len (. tx Inputs))) (> (len (. (at (. tx Inputs) inputNumber) previousTxID)) 0) (not (nil? (. (at (. tx Inputs) inputNumber) PreviousTxScript))))))
 //@   ensures[C02.sighash] (=> (and (= err nil) (= (mod (div sigHashFlag 64) 2) 1)) (= (bytes r0) (bsha256d (old (spec.preimage143 tx inputNumber sigHashFlag)))))
+
+// ---- legacy signature hash (C03): error reporting and the SIGHASH_SINGLE out-of-range constant ----
+//@ func bt.(*Tx).CalcInputPreimageLegacy
+//@   ensures[C03.legacy_errors] (= (= err nil) (and (< inputNumber (len (. tx Inputs))) (> (len (. (at (. tx Inputs) inputNumber) previousTxID)) 0) (not (nil? (. (at (. tx Inputs) inputNumber) PreviousTxScript)))))
+//@   ensures[C03.single_bug_constant] (=> (and (= err nil) (= (mod shf 32) 3) (>= inputNumber (len (. tx Outputs)))) (= r0 defaultHex))
+//@ func bt.(*Tx).CalcInputSignatureHash
+//@   ensures[C03.sighash_errors] (=> (= (mod (div sigHashFlag 64) 2) 0) (= (= err nil) (and (< inputNumber (len (. tx Inputs))) (> (len (. (at (. tx Inputs) inputNumber) previousTxID)) 0) (not (nil? (. (at (. tx Inputs) inputNumber) PreviousTxScript))))))
+//@   ensures[C03.single_bug_hash] (=> (and (= err nil) (= (mod (div sigHashFlag 64) 2) 0) (= (mod sigHashFlag 32) 3) (>= inputNumber (len (. tx Outputs)))) (= (bytes r0) (bcat (b1 1) (bzeros 31))))
